@@ -266,9 +266,8 @@ func (f *file) Close() error {
 		return io.EOF
 	}
 
-	if err := f.ioc.UnsetReadWrite(&f.slot); err != nil {
-		return err
-	}
+	// The descriptor is closed whatever the poller says: it is not going to be used again.
+	_ = f.ioc.UnsetReadWrite(&f.slot)
 	f.ioc.Deregister(&f.slot)
 
 	return syscall.Close(f.slot.Fd)
